@@ -18,15 +18,19 @@ import os
 from fractions import Fraction
 
 import geom
-from common import CORPUS_DIR, call, frac, rat
+from common import CORPUS_DIR, InfraError, call, frac, rat
 
-RULE = ("400 (quick) / 8 x 840 (thorough) histories after the corpus, each of 3..14 operations (add / remove / assign with all or some obstacle ids and all or some time steps / "
+RULE = ("400 (quick) / 8 x 1500 (thorough) histories after the corpus, each of 3..14 operations (add / remove / assign with all or some obstacle ids and all or some time steps / "
         "re-open through an XML or protobuf file with lanelet_assignment=True) over 1..5 obstacles (static, dynamic with a "
         "trajectory of 1..5 states, dynamic without prediction, in 15 % of the histories one dynamic obstacle with a "
         "SetBasedPrediction; rectangle axis-aligned or rotated, circle, polygon, shape group) "
         "on networks of 2..7 lanelets (parallel lanes sharing a boundary, successor lanes, a crossing lane, a bent lane, a far "
         "lane), all coordinates on the grid k/16; obstacle centres sit in a lane, exactly on a shared boundary, half a width "
         "away from it (shape touches / overlaps the neighbour while the centre does not), or off the road. "
+        "Every history is then diversified along the generator-audit table (DIM_SIGNATURES / DIM_MEMBERS): list forms, network-level "
+        "and replace_lanelet_network entry points, argument containers and numpy scalars, empty / repeated time steps, id 0, time steps "
+        "around 10^6, registry and attribute setters (same object / reset), update_initial_state, read-only query batches, reader "
+        "reuse / reader classes / writer variants; a history continues after an operation raised. "
         "distinct = canonical JSON of the history; non-trivial = the history contains an assignment (assign or reopen) and at "
         "least one obstacle whose shape set differs from its centre set or a removal after assignment")
 ASSUMPTIONS = [
@@ -56,6 +60,18 @@ ASSUMPTIONS = [
     "the next full assignment or file read (C07c_registry_bounds, C07c_reassign_exact); add_objects of an obstacle whose "
     "recorded shape sets name a lanelet missing from a non-empty network raises AttributeError by construction - the property "
     "does not promise that adding never fails: modelled (error branch), compared, not judged",
+    "the state after an operation raised is not followed by the model (its history ends there); the oracle keeps judging the rest of "
+    "the history (registry within recorded, scenario content, removing a contained obstacle never fails)",
+    "editing the assignment attributes of an obstacle that is IN the scenario (setters, update_initial_state, update_prediction) "
+    "does not tell the lanelets - the library offers no hook: from there to the next file read (update_*: to the end) only the "
+    "scenario's content and 'removing never fails' are judged; the theorems C07c_inv_run .. C07c_reassign_exact are stated for "
+    "histories without such edits (SaneRun), C07c_remove_total for all",
+    "numpy integers as TIME STEPS are refused by the occupancy accessors' int check (AssertionError; documented type List[int]): "
+    "outside the quantifier (bucket value/np-int-rejected; numpy integers as obstacle ids, and as time steps of histories with "
+    "static obstacles only, are accepted and compared)",
+    "mixing Scenario.remove_lanelet / add_objects(Lanelet) with LaneletNetwork.remove_lanelet / add_lanelet on the same lanelet id "
+    "leaves the scenario's id set behind (not C07's subject): the valid combinations are generated and compared, the error class of "
+    "an inadmissible one is not",
     "in the remaining cases the lanelet network is fixed; use_center_only=True and inadmissible arguments (unknown ids, time steps before "
     "the initial one, re-adding a contained obstacle) are compared with the model but not judged by the oracle",
 ]
@@ -68,7 +84,271 @@ REQUIRED_BUCKETS = ["entry/assign", "entry/reopen-xml", "entry/reopen-pb", "kind
                     "geo/shape-beyond-center", "geo/touching", "geo/off-road", "geo/multi-lanelet-center",
                     "op/remove-after-assign", "op/readd", "op/partial-assign", "op/center-only", "op/error",
                     "net/rmlane", "net/addlane", "net/remove-obstacle-recording-absent-lanelet",
-                    "net/remove-preset-obstacle-after-late-lanelets"]
+                    "net/remove-preset-obstacle-after-late-lanelets", "net/network-level-or-list",
+                    "form/list-add", "form/list-remove", "form/arg-types", "value/np-int", "value/empty-ids", "value/empty-ts",
+                    "value/repeated-ts", "value/id0", "value/big-t0", "op/query", "op/clearlane", "op/set-same", "op/set-outside",
+                    "op/set-inside", "op/after-error", "entry/reader-reuse", "entry/reader-class", "net/replace-copy", "net/replace-fresh",
+                    "net/replace-swap", "op/update-inside", "form/remove-lanelet-noref", "value/np-int-rejected", "entry/io-variants"]
+
+# ------------------------------------------------------------------------------------------------ generator audit
+# Everything of the public API that can influence what C07 observes (recorded lanelet sets of the obstacles, obstacle registries of
+# the lanelets, the scenario's content, whether an operation raises), with how the generator varies it — or why it cannot matter /
+# is outside the property's quantifier. check_dimensions() compares the table with the real signatures, public methods and settable
+# properties on EVERY run: anything new (or gone) => exit 2, so that code growth cannot silently escape the generator.
+#   V = varied (how, bucket)     F = held fixed (why it cannot matter)     X = outside the quantifier (why)
+V, F, X = "varied", "fixed", "outside"
+_GEOM = "changes where something lies: the lookup answers are the model's parameters, fixed per case (a history in which a file read " \
+        "changes one is cut there, bucket reopen/geometry-changed-by-file); new geometry = new case"
+_OTHER = "other element kinds (signs, lights, intersections, areas, signals, meta information); no code path to the obstacle " \
+         "registries or the obstacles' lanelet sets"
+_READ = "read-only; a sample is called between the operations (op query, bucket op/query) and model = implementation is compared after it"
+_TOPO = "lanelet topology / attributes; find_lanelet_by_shape / _by_position read the polygons only"
+_DRAW = "rendering / 3-d stripping; not called"
+
+
+def _grp(names, status, why):
+    return {n: (status, why) for n in names.split()}
+
+
+DIM_SIGNATURES = {
+    "commonroad.scenario.scenario:Scenario.__init__": {
+        **_grp("dt scenario_id author tags affiliation source location", F, "meta data; needed by the file writer only, one valid value")},
+    "commonroad.scenario.scenario:Scenario.add_objects": {
+        "scenario_object": (V, "obstacle / list of obstacles (addmany, form/list-add) / Lanelet (addlane) / LaneletNetwork (build, "
+                               "replacenet swap, net/replace-swap); objects re-added after removal and after a file read (op/readd); "
+                               "obstacles built with lanelet ids (preset) on empty / partial networks"),
+        "lanelet_ids": (F, "read for traffic signs / lights only")},
+    "commonroad.scenario.scenario:Scenario.assign_obstacles_to_lanelets": {
+        "time_steps": (V, "None / explicit; list, tuple, range, numpy array (form/arg-types); numpy integers (value/np-int; refused by "
+                          "the occupancy accessors' int check: value/np-int-rejected, oracle goes on); empty (value/empty-ts); repeated "
+                          "and unsorted (value/repeated-ts); before the initial step, beyond the horizon (inadmissible stream); 10^6 "
+                          "(value/big-t0)"),
+        "obstacle_ids": (V, "None / subset; set, list, tuple, frozenset (form/arg-types); numpy integers; empty (value/empty-ids); "
+                            "id 0 (value/id0); unknown ids (inadmissible stream)"),
+        "use_center_only": (V, "False / True (op/center-only)")},
+    "commonroad.scenario.scenario:Scenario.remove_obstacle": {
+        "obstacle": (V, "the object the scenario holds / the object built before a file read; list form (removemany, "
+                        "form/list-remove) incl. lists with an obstacle that is not in the scenario; after lanelet removals, registry "
+                        "resets, attribute edits, failed calls (C07/remove_obstacle/raises-after-lanelet-removal)")},
+    "commonroad.scenario.scenario:Scenario.remove_lanelet": {
+        "lanelet": (V, "single / list (rmlanes, net/network-level-or-list) / absent lanelet (inadmissible stream)"),
+        "referenced_elements": (V, "True / False (form/remove-lanelet-noref)")},
+    "commonroad.scenario.scenario:Scenario.replace_lanelet_network": {
+        "lanelet_network": (V, "deep copy of the current one incl. registries (net/replace-copy) / fresh lanelets, any subset "
+                               "(net/replace-fresh)")},
+    "commonroad.scenario.obstacle:StaticObstacle.__init__": {
+        "obstacle_id": (V, "30.., 0 (value/id0)"),
+        "obstacle_type": (F, "not read by the assignment code"),
+        "obstacle_shape": (V, "rectangle (rotated), circle, polygon, shape group (shape/*)"),
+        "initial_state": (V, "position / orientation on, beside, across lanelets (geo/*); time step 0.., 10^6 (value/big-t0)"),
+        "initial_center_lanelet_ids": (V, "None / the lookup answers on all lanelets of the case (preset)"),
+        "initial_shape_lanelet_ids": (V, "None / the lookup answers on all lanelets of the case (preset)"),
+        **_grp("initial_signal_state signal_series", F, _OTHER)},
+    "commonroad.scenario.obstacle:DynamicObstacle.__init__": {
+        "obstacle_id": (V, "30.., 0 (value/id0)"),
+        "obstacle_type": (F, "not read by the assignment code"),
+        "obstacle_shape": (V, "as for StaticObstacle"),
+        "initial_state": (V, "as for StaticObstacle"),
+        "prediction": (V, "None / TrajectoryPrediction / SetBasedPrediction (kind/none, kind/traj, kind/set)"),
+        "initial_center_lanelet_ids": (V, "None / lookup answers (preset)"),
+        "initial_shape_lanelet_ids": (V, "None / lookup answers (preset)"),
+        **_grp("initial_signal_state signal_series initial_meta_information_state meta_information_series external_dataset_id", F, _OTHER),
+        **_grp("history signal_history center_lanelet_ids_history shape_lanelet_ids_history", F,
+               "the past of the obstacle: written by update_initial_state (op update), never read by add / remove / assign / the "
+               "file formats"),
+        "kwargs": (F, "wheelbase_lengths only: needs states with hitch angles, which InitialState cannot carry")},
+    "commonroad.scenario.obstacle:DynamicObstacle.update_initial_state": {
+        "current_state": (V, "the next trajectory state (op update state, op/update-inside|outside): from then on scenario content "
+                             "and 'removing never fails' only — the registries are not told, by design of that method"),
+        **_grp("current_center_lanelet_ids current_shape_lanelet_ids", V, "the sets the object carried"),
+        "current_signal_state": (F, _OTHER),
+        "max_history_length": (F, "truncates the history lists, see history")},
+    "commonroad.scenario.obstacle:DynamicObstacle.update_prediction": {
+        "prediction": (V, "None (op update pred)"), "signal_series": (F, _OTHER)},
+    "commonroad.prediction.prediction:TrajectoryPrediction.__init__": {
+        "trajectory": (V, "0..5 states, moving across lanelets; first step = initial step + 1"),
+        "shape": (V, "the obstacle's shape"),
+        "center_lanelet_assignment": (V, "None / lookup answers (preset)"),
+        "shape_lanelet_assignment": (V, "None / lookup answers (preset)"),
+        "kwargs": (F, "wheelbase_lengths only, see DynamicObstacle")},
+    "commonroad.prediction.prediction:SetBasedPrediction.__init__": {
+        "initial_time_step": (V, "initial step + 1"), "occupancy_set": (V, "1..3 occupancies (kind/set); outside the property, see ASSUMPTIONS")},
+    "commonroad.scenario.lanelet:Lanelet.__init__": {
+        **_grp("left_vertices center_vertices right_vertices", V, "straight / bent, adjacent, overlapping, touching at corners"),
+        "lanelet_id": (V, "1..6; removed and re-added under the same id with empty registries"),
+        **_grp("predecessor successor adjacent_left adjacent_left_same_direction adjacent_right adjacent_right_same_direction "
+               "line_marking_left_vertices line_marking_right_vertices stop_line lanelet_type user_one_way user_bidirectional "
+               "traffic_signs traffic_lights adjacent_areas", F, _TOPO)},
+    "commonroad.scenario.lanelet:Lanelet.add_dynamic_obstacle_to_lanelet": {
+        **_grp("obstacle_id time_step", F, "internal writer of the registry; reached through add / assign / the readers only")},
+    "commonroad.scenario.lanelet:Lanelet.add_static_obstacle_to_lanelet": {
+        "obstacle_id": (F, "internal writer of the registry; reached through add / assign / the readers only")},
+    "commonroad.scenario.lanelet:Lanelet.dynamic_obstacle_by_time_step": {
+        "time_step": (V, "every registered step, -5, 10^7 (op query 1: must equal the registry entry)")},
+    "commonroad.scenario.lanelet:LaneletNetwork.add_lanelet": {
+        "lanelet": (V, "network-level entry point (addlane net, net/network-level-or-list)"),
+        "rtree": (F, "False leaves the spatial index stale: C06's subject (stale-index witness there)")},
+    "commonroad.scenario.lanelet:LaneletNetwork.remove_lanelet": {
+        "lanelet_id": (V, "network-level entry point (rmlane net)"), "rtree": (F, "as for add_lanelet")},
+    "commonroad.scenario.lanelet:LaneletNetwork.create_from_lanelet_list": {
+        "lanelets": (V, "fresh lanelets (build, replacenet)"), "cleanup_ids": (F, _TOPO)},
+    "commonroad.scenario.lanelet:LaneletNetwork.create_from_lanelet_network": {
+        "lanelet_network": (V, "the scenario's network (replacenet copy)"),
+        **_grp("shape_input exclude_lanelet_types", F, "select a subset of the lanelets: = replacenet fresh with a subset, but with copied "
+                                                       "registries; covered by rmlane on the copy"),
+        "cleanup_ids": (F, _TOPO)},
+    "commonroad.common.file_reader:CommonRoadFileReader.__init__": {
+        "filename": (V, "str / pathlib.Path (entry/io-variants)"), "file_format": (V, "XML / PROTOBUF / None (entry/io-variants)")},
+    "commonroad.common.file_reader:CommonRoadFileReader.open": {
+        "lanelet_assignment": (V, "True; False then True on ONE reader object (entry/reader-reuse). False alone = the unassigned "
+                                  "state every history starts from")},
+    "commonroad.common.reader.file_reader_xml:XMLFileReader.open": {"lanelet_assignment": (V, "True (entry/reader-class)")},
+    "commonroad.common.reader.file_reader_protobuf:ProtobufFileReader.open": {"lanelet_assignment": (V, "True (entry/reader-class)")},
+    "commonroad.common.file_writer:CommonRoadFileWriter.__init__": {
+        "scenario": (V, "the scenario after any history"),
+        **_grp("planning_problem_set author affiliation source tags location", F, "meta data"),
+        "decimal_precision": (F, _GEOM),
+        "file_format": (V, "XML / PROTOBUF (entry/reopen-xml, entry/reopen-pb)")},
+    "commonroad.common.file_writer:CommonRoadFileWriter.write_to_file": {
+        "filename": (V, "str / pathlib.Path"), "overwrite_existing_file": (F, "fresh file name per call"),
+        "check_validity": (F, "XSD validation of the written file; no effect on its content")},
+    "commonroad.common.file_writer:CommonRoadFileWriter.write_scenario_to_file": {
+        "filename": (V, "str / pathlib.Path (entry/io-variants)"), "overwrite_existing_file": (F, "fresh file name per call")},
+}
+
+DIM_MEMBERS = {        # public methods and settable properties, class by class
+    "commonroad.scenario.scenario:Scenario": {
+        **_grp("add_objects assign_obstacles_to_lanelets remove_obstacle remove_lanelet replace_lanelet_network", V, "see DIM_SIGNATURES"),
+        "erase_lanelet_network": (V, "through replace_lanelet_network (net/replace-*); alone = rmlanes of all lanelets"),
+        "remove_hanging_lanelet_members": (V, "through remove_lanelet(referenced_elements=True)"),
+        **_grp("obstacle_by_id obstacle_states_at_time_step obstacles_by_position_intervals occupancies_at_time_step", V, _READ),
+        **_grp("obstacles_by_role_and_type generate_object_id", F, "read-only, touch neither lanelets nor lanelet sets"),
+        **_grp("remove_intersection remove_traffic_light remove_traffic_sign", F, _OTHER),
+        **_grp("translate_rotate", X, _GEOM),
+        **_grp("convert_to_2d draw", F, _DRAW),
+        "dt": (F, "meta data")},
+    "commonroad.scenario.lanelet:LaneletNetwork": {
+        **_grp("add_lanelet remove_lanelet create_from_lanelet_list create_from_lanelet_network", V, "see DIM_SIGNATURES"),
+        **_grp("find_lanelet_by_id find_lanelet_by_position find_lanelet_by_shape map_obstacles_to_lanelets", V, _READ),
+        **_grp("filter_obstacles_in_network lanelets_in_proximity find_most_likely_lanelet_by_state", F,
+               "read-only geometric queries next to the ones sampled"),
+        "add_lanelets_from_network": (F, "loop over add_lanelet(rtree=False) + index rebuild: the network-level entry point, see add_lanelet"),
+        **_grp("cleanup_lanelet_references", F, _TOPO),
+        **_grp("add_area add_intersection add_traffic_light add_traffic_sign cleanup_traffic_light_references "
+               "cleanup_traffic_sign_references find_area_by_id find_intersection_by_id find_traffic_light_by_id "
+               "find_traffic_sign_by_id get_traffic_lights_referenced_lanelets get_traffic_sign_referenced_lanelets remove_area "
+               "remove_intersection remove_traffic_light remove_traffic_sign information", F, _OTHER),
+        "translate_rotate": (X, _GEOM),
+        **_grp("convert_to_2d draw", F, _DRAW)},
+    "commonroad.scenario.lanelet:Lanelet": {
+        **_grp("static_obstacles_on_lanelet dynamic_obstacles_on_lanelet", V,
+               "setters: the same object handed back / an empty one (clearlane, op/clearlane; model op clearLanelet)"),
+        **_grp("add_dynamic_obstacle_to_lanelet add_static_obstacle_to_lanelet", F, "see DIM_SIGNATURES"),
+        **_grp("dynamic_obstacle_by_time_step get_obstacles", V, _READ),
+        **_grp("contains_points convert_to_polygon interpolate_position orientation_by_position "
+               "all_lanelets_by_merging_predecessors_from_lanelet all_lanelets_by_merging_successors_from_lanelet "
+               "find_lanelet_predecessors_in_range find_lanelet_successors_in_range", F, "read-only geometry / topology"),
+        "merge_lanelets": (X, "static method producing a NEW lanelet (new geometry, merged registries) that is in no network; " + _GEOM),
+        **_grp("left_vertices center_vertices right_vertices translate_rotate", X, _GEOM),
+        "lanelet_id": (X, "re-keying a lanelet in place leaves the network's own id dictionary and the scenario's id set behind: the "
+                          "network's integrity, not the obstacle bookkeeping; remove + add under another id is the supported way (rmlane / addlane)"),
+        **_grp("distance", F, "cached arc lengths"),
+        **_grp("add_adjacent_area_to_lanelet add_predecessor add_successor add_traffic_light_to_lanelet add_traffic_sign_to_lanelet "
+               "remove_predecessor remove_successor adj_left adj_left_same_direction adj_right adj_right_same_direction adjacent_areas "
+               "lanelet_type line_marking_left_vertices line_marking_right_vertices predecessor successor stop_line traffic_lights "
+               "traffic_signs user_bidirectional user_one_way", F, _TOPO),
+        **_grp("convert_to_2d", F, _DRAW)},
+    "commonroad.scenario.obstacle:StaticObstacle": {
+        **_grp("initial_center_lanelet_ids initial_shape_lanelet_ids", V,
+               "setters: same object handed back (op/set-same), None, lookup answers; on obstacles outside the scenario (op/set-outside, "
+               "model op setFwd) and inside (op/set-inside: registries not told; scenario content + 'removing never fails' only)"),
+        **_grp("occupancy_at_time state_at_time", V, _READ),
+        **_grp("initial_state obstacle_shape translate_rotate", X, _GEOM),
+        "obstacle_id": (X, "setter refuses a second assignment (warning, no change)"),
+        **_grp("obstacle_role obstacle_type", F, "setters refuse a second assignment / not read by the assignment code"),
+        **_grp("initial_signal_state signal_series signal_state_at_time_step", F, _OTHER),
+        "draw": (F, _DRAW)},
+    "commonroad.scenario.obstacle:DynamicObstacle": {
+        **_grp("initial_center_lanelet_ids initial_shape_lanelet_ids", V, "as for StaticObstacle"),
+        **_grp("update_initial_state update_prediction", V, "op update (op/update-inside, op/update-outside)"),
+        "prediction": (V, "setter = update_prediction (op update pred)"),
+        **_grp("occupancy_at_time state_at_time", V, _READ),
+        **_grp("initial_state obstacle_shape translate_rotate", X, _GEOM + " (moving an obstacle in place is update_initial_state's job: op update)"),
+        "obstacle_id": (X, "setter refuses a second assignment (warning, no change)"),
+        **_grp("obstacle_role obstacle_type", F, "setters refuse a second assignment / not read by the assignment code"),
+        **_grp("initial_signal_state signal_series signal_state_at_time_step initial_meta_information_state meta_information_series "
+               "external_dataset_id", F, _OTHER),
+        "draw": (F, _DRAW)},
+    "commonroad.prediction.prediction:TrajectoryPrediction": {
+        **_grp("center_lanelet_assignment shape_lanelet_assignment", V, "setters: same / None / lookup answers (op set)"),
+        "occupancy_at_time_step": (V, _READ),
+        **_grp("trajectory shape translate_rotate", X, _GEOM),
+        "wheelbase_lengths": (F, "see DynamicObstacle kwargs (and its setter writes a misspelt attribute)")},
+    "commonroad.prediction.prediction:SetBasedPrediction": {
+        "occupancy_at_time_step": (V, _READ), **_grp("occupancy_set translate_rotate", X, _GEOM + "; outside the property anyway")},
+    "commonroad.common.file_reader:CommonRoadFileReader": {
+        "open": (V, "see DIM_SIGNATURES"), "open_lanelet_network": (F, "returns a LaneletNetwork without obstacles: nothing C07 observes")},
+    "commonroad.common.reader.file_reader_xml:XMLFileReader": {
+        "open": (V, "entry/reader-class"), "open_lanelet_network": (F, "no obstacles")},
+    "commonroad.common.reader.file_reader_protobuf:ProtobufFileReader": {
+        "open": (V, "entry/reader-class"), "open_lanelet_network": (F, "no obstacles")},
+    "commonroad.common.file_writer:CommonRoadFileWriter": {
+        **_grp("write_to_file write_scenario_to_file", V, "entry/io-variants"),
+        "check_validity_of_commonroad_file": (F, "static XSD check")},
+}
+
+
+def _resolve(path):
+    import importlib
+    mod, qual = path.split(":")
+    obj = importlib.import_module(mod)
+    for part in qual.split("."):
+        obj = getattr(obj, part)
+    return obj
+
+
+def check_dimensions():
+    """the table against the code under test: every parameter of the listed callables, every public method and every settable
+    property of the listed classes must be an entry (and every entry must exist). Exit 2 otherwise."""
+    import inspect
+    bad = []
+    for path, entries in DIM_SIGNATURES.items():
+        try:
+            params = [n for n in inspect.signature(_resolve(path)).parameters if n not in ("self", "cls")]
+        except Exception as e:  # noqa
+            bad.append(f"{path}: cannot be resolved ({e})")
+            continue
+        bad += [f"{path}: parameter '{n}' is not in DIMENSIONS" for n in params if n not in entries]
+        bad += [f"{path}: DIMENSIONS names a parameter '{n}' that does not exist" for n in entries if n not in params]
+    for path, entries in DIM_MEMBERS.items():
+        try:
+            cls = _resolve(path)
+        except Exception as e:  # noqa
+            bad.append(f"{path}: cannot be resolved ({e})")
+            continue
+        have = set()
+        for n, v in inspect.getmembers(cls):
+            if n.startswith("_"):
+                continue
+            if isinstance(v, property):
+                if v.fset is not None:
+                    have.add(n)
+            elif callable(v):
+                have.add(n)
+        bad += [f"{path}: public method / settable property '{n}' is not in DIMENSIONS" for n in sorted(have - set(entries))]
+        bad += [f"{path}: DIMENSIONS names '{n}', which does not exist (any more)" for n in sorted(set(entries) - have)]
+    for table in (DIM_SIGNATURES, DIM_MEMBERS):
+        for path, entries in table.items():
+            for n, (status, why) in entries.items():
+                if status not in (V, F, X) or not why:
+                    bad.append(f"{path}.{n}: malformed entry")
+    if bad:
+        raise InfraError("C07 generator-audit table out of date (harness/c07.py DIM_SIGNATURES / DIM_MEMBERS):\n  " + "\n  ".join(bad))
+    return sum(len(e) for e in DIM_SIGNATURES.values()) + sum(len(e) for e in DIM_MEMBERS.values())
+
+
+DIMENSIONS = {"signatures": DIM_SIGNATURES, "members": DIM_MEMBERS}
+
 
 G = 16.0           # grid
 ORIS = [0.0, 0.0, 0.3, -1.2, 1.5708, 0.7854, 3.1416, -0.5, 2.0]
@@ -287,6 +567,141 @@ def gen_ops(r, obs):
 
 
 def gen_case(ctx):
+    return diversify(ctx.rng, gen_case_base(ctx))
+
+
+def diversify(r, case):
+    """the dimensions of DIMENSIONS that are not histories of their own: entry-point variants (list forms, network level, reader
+    reuse / reader classes), argument container and scalar types, value classes, in-place setters, read-only queries"""
+    lids = [l["id"] for l in case["lanelets"]]
+    ids = [o["id"] for o in case["obstacles"]]
+    kind = {o["id"]: o["kind"] for o in case["obstacles"]}
+    # value classes: obstacle id 0, very large time steps
+    if r.random() < 0.12:
+        old = ids[0]
+        for o in case["obstacles"]:
+            if o["id"] == old:
+                o["id"] = 0
+        def ren(x):
+            return 0 if x == old else x
+        for op in case["ops"]:
+            if op[0] in ("add", "remove"):
+                op[1] = ren(op[1])
+            elif op[0] == "assign" and op[1] is not None:
+                op[1] = [ren(i) for i in op[1]]
+        ids = [ren(i) for i in ids]
+        kind = {o["id"]: o["kind"] for o in case["obstacles"]}
+    if r.random() < 0.08:
+        big = 10 ** 6
+        for o in case["obstacles"]:
+            o["t0"] += big
+            for key in ("pc", "ps"):
+                if isinstance(o.get("preset"), dict) and o["preset"].get(key) is not None:
+                    o["preset"][key] = {(str(int(t) + big) if isinstance(t, str) else t + big): v for t, v in o["preset"][key].items()}
+        for op in case["ops"]:
+            if op[0] == "assign" and op[2] is not None:
+                op[2] = [t + big for t in op[2]]
+    present = set(present0(case))
+    inside, net_level, net_removed, out = set(), set(), set(), []
+    replaced = False
+    ops = case["ops"]
+    k = 0
+    while k < len(ops):
+        op = list(ops[k])
+        if replaced and ((op[0] == "rmlane" and op[1] not in present) or (op[0] == "addlane" and op[1] in present)):
+            k += 1
+            continue        # the base history's lanelet operation lost its meaning through an inserted network replacement
+        # read-only queries, registry setters, attribute setters in between
+        x = r.random()
+        if x < 0.10:
+            out.append(["query", r.randrange(4)])
+        elif x < 0.13 and present:
+            out.append(["clearlane", r.choice(sorted(present)), r.choice(["same", "empty", "empty"])])
+        elif x < 0.19 and ids:
+            i = r.choice(ids)
+            if kind[i] != "set":
+                how = "same" if r.random() < 0.3 else r.choice(["lookup", "none"])
+                if i in inside and how != "same" and r.random() < 0.6:
+                    i = next((j for j in ids if j not in inside and kind[j] != "set"), i)       # mostly obstacles outside the scenario
+                out.append(["set", i, how])
+        elif x < 0.225 and not net_level and not net_removed:
+            absent = [l for l in lids if l not in present]
+            mode = r.choice(["copy", "fresh", "swap", "swap"] if absent else ["copy", "fresh", "fresh"])
+            new = [] if mode == "copy" else r.sample(absent if mode == "swap" else lids, r.randint(1, len(absent if mode == "swap" else lids)))
+            out.append(["replacenet", mode, sorted(new)])
+            if mode != "copy":
+                present = set(new)
+                replaced = True
+        elif x < 0.237:
+            dyn = [i for i in ids if kind[i] != "static"]
+            if dyn:
+                out.append(["update", r.choice(dyn), r.choice(["state", "state", "pred"])])
+        # list forms of consecutive single operations
+        if op[0] in ("add", "remove") and r.random() < 0.3:
+            run = [op[1]]
+            while k + 1 < len(ops) and ops[k + 1][0] == op[0] and ops[k + 1][1] not in run and len(run) < 4:
+                k += 1
+                run.append(ops[k][1])
+            op = ["addmany" if op[0] == "add" else "removemany", run]
+        elif op[0] == "rmlane" and r.random() < 0.3 and op[1] not in net_level:
+            run = [op[1]]
+            while k + 1 < len(ops) and ops[k + 1][0] == "rmlane" and ops[k + 1][1] not in run and ops[k + 1][1] not in net_level:
+                k += 1
+                run.append(ops[k][1])
+            op = ["rmlanes", run]
+        elif op[0] == "rmlane" and (op[1] in net_level or r.random() < 0.2):
+            op = ["rmlane", op[1], "net"]
+        elif op[0] == "rmlane" and r.random() < 0.25:
+            op = ["rmlane", op[1], "noref"]
+        elif op[0] == "addlane" and (op[1] in net_removed or r.random() < 0.25):
+            op = ["addlane", op[1], "net"]
+        elif op[0] == "assign":
+            form = {"ids": r.choice(["set", "set", "list", "tuple", "frozenset"]), "ts": r.choice(["list", "list", "tuple", "range", "array"]),
+                    "np": r.random() < 0.2}
+            y = r.random()
+            if y < 0.04:
+                op[1] = []
+            elif y < 0.08:
+                op[2] = []
+            elif y < 0.16 and op[2]:
+                op[2] = list(op[2]) + [r.choice(op[2])]
+            elif y < 0.22 and op[2] is None:
+                T = max(o["t0"] for o in case["obstacles"])
+                op[2] = [T + 1, T, T + 1]
+            op = [op[0], op[1], op[2], op[3], form]
+        elif op[0] == "reopen":
+            op = ["reopen", op[1] + r.choice(["", "", "2", "r"]) + "".join(c for c in "nsp" if r.random() < 0.25)]
+        # bookkeeping for the choices above
+        if op[0] == "add":
+            inside.add(op[1])
+        elif op[0] == "addmany":
+            inside.update(op[1])
+        elif op[0] == "remove":
+            inside.discard(op[1])
+        elif op[0] == "removemany":
+            inside.difference_update(op[1])
+        elif op[0] == "addlane":
+            present.add(op[1])
+            if len(op) > 2 and op[1] in net_removed:
+                net_removed.discard(op[1])
+            elif len(op) > 2:
+                net_level.add(op[1])
+        elif op[0] == "rmlane":
+            present.discard(op[1])
+            if len(op) > 2 and op[2] == "net" and op[1] not in net_level:
+                net_removed.add(op[1])
+            net_level.discard(op[1])
+        elif op[0] == "reopen":
+            net_level, net_removed = set(), set()
+        elif op[0] == "rmlanes":
+            present.difference_update(op[1])
+        out.append(op)
+        k += 1
+    case["ops"] = out
+    return case
+
+
+def gen_case_base(ctx):
     r = ctx.rng
     lanes = gen_network(r)
     obs = gen_obstacles(r, lanes)
@@ -409,16 +824,41 @@ def horizon(o):
 
 
 def reopen(ctx, sc, fmt, counter=[0]):
+    """write the scenario to a file and read it back. fmt = "xml" | "pb" followed by flags:
+      "2" ONE reader object opened several times (first without lanelet assignment; the results must not share lanelet objects)
+      "r" the format-specific reader class directly   "n" file_format=None (taken from the suffix)
+      "s" CommonRoadFileWriter.write_scenario_to_file   "p" the file name as pathlib.Path"""
+    import pathlib
     from commonroad.common.file_reader import CommonRoadFileReader
     from commonroad.common.file_writer import CommonRoadFileWriter, OverwriteExistingFile
     from commonroad.common.util import FileFormat
     from commonroad.planning.planning_problem import PlanningProblemSet
     counter[0] += 1
-    ff = FileFormat.XML if fmt == "xml" else FileFormat.PROTOBUF
-    path = os.path.join(ctx.tmpdir(), f"s{os.getpid()}_{counter[0]}.{'xml' if fmt == 'xml' else 'pb'}")
+    base = fmt[:3] if fmt.startswith("xml") else "pb"
+    how = fmt[len(base):]
+    ff = FileFormat.XML if base == "xml" else FileFormat.PROTOBUF
+    path = os.path.join(ctx.tmpdir(), f"s{os.getpid()}_{counter[0]}.{'xml' if base == 'xml' else 'pb'}")
+    name = pathlib.Path(path) if "p" in how else path
     w = CommonRoadFileWriter(sc, PlanningProblemSet(), sc.author, sc.affiliation, sc.source, sc.tags, sc.location, file_format=ff)
-    w.write_to_file(path, OverwriteExistingFile.ALWAYS, check_validity=False)
-    sc2, _ = CommonRoadFileReader(path, file_format=ff).open(lanelet_assignment=True)
+    if "s" in how:
+        w.write_scenario_to_file(name, OverwriteExistingFile.ALWAYS)
+    else:
+        w.write_to_file(name, OverwriteExistingFile.ALWAYS, check_validity=False)
+    if "r" in how:
+        if base == "xml":
+            from commonroad.common.reader.file_reader_xml import XMLFileReader
+            rd = XMLFileReader(name)
+        else:
+            from commonroad.common.reader.file_reader_protobuf import ProtobufFileReader
+            rd = ProtobufFileReader(name)
+        sc2 = rd.open(True)
+        sc2 = sc2[0] if isinstance(sc2, tuple) else sc2
+    else:
+        rd = CommonRoadFileReader(name, file_format=None if "n" in how else ff)
+        if "2" in how:
+            rd.open(lanelet_assignment=False)
+            rd.open(lanelet_assignment=True)
+        sc2, _ = rd.open(lanelet_assignment=True)
     os.unlink(path)
     return sc2
 
@@ -652,14 +1092,28 @@ class World:
         return out
 
     def apply(self, op):
+        try:
+            self._apply(op)
+        except BaseException:
+            self.net_version += 1       # a call that failed half-way may have changed the network: the oracle's cache is per network state
+            raise
+
+    def _apply(self, op):
         sc = self.sc
         if op[0] == "add":
             sc.add_objects(self.objs[op[1]])
         elif op[0] == "remove":
             ob = sc.obstacle_by_id(op[1])
             sc.remove_obstacle(ob if ob is not None else self.objs.get(op[1], build_obstacle(dict(self.case["obstacles"][0], id=op[1]))))
+        elif op[0] == "addmany":
+            sc.add_objects([self.objs[i] for i in op[1]])
+        elif op[0] == "removemany":
+            sc.remove_obstacle([sc.obstacle_by_id(i) if sc.obstacle_by_id(i) is not None else
+                                self.objs.get(i, build_obstacle(dict(self.case["obstacles"][0], id=i))) for i in op[1]])
         elif op[0] == "assign":
-            sc.assign_obstacles_to_lanelets(time_steps=op[2], obstacle_ids=None if op[1] is None else set(op[1]),
+            form = op[4] if len(op) > 4 and op[4] else {}
+            sc.assign_obstacles_to_lanelets(time_steps=_as_form(op[2], form.get("ts", "list"), form.get("np")),
+                                            obstacle_ids=_as_form(op[1], form.get("ids", "set"), form.get("np")),
                                             use_center_only=bool(op[3]))
         elif op[0] == "reopen":
             sc2 = reopen(self.ctx, sc, op[1])
@@ -669,13 +1123,117 @@ class World:
             self.net_version += 1
         elif op[0] == "rmlane":
             la = sc.lanelet_network.find_lanelet_by_id(op[1])
-            sc.remove_lanelet(la if la is not None else build_lanelet(self.lane_spec[op[1]]))
+            if len(op) > 2 and op[2] == "net":
+                sc.lanelet_network.remove_lanelet(op[1])               # network-level entry point
+            elif len(op) > 2 and op[2] == "noref":
+                sc.remove_lanelet(la if la is not None else build_lanelet(self.lane_spec[op[1]]), referenced_elements=False)
+            else:
+                sc.remove_lanelet(la if la is not None else build_lanelet(self.lane_spec[op[1]]))
+            self.net_version += 1
+        elif op[0] == "replacenet":
+            from commonroad.scenario.lanelet import LaneletNetwork
+            if op[1] == "copy":        # the lanelets are deep-copied WITH their registries
+                sc.replace_lanelet_network(LaneletNetwork.create_from_lanelet_network(sc.lanelet_network))
+            else:
+                net = LaneletNetwork.create_from_lanelet_list([build_lanelet(self.lane_spec[l]) for l in op[2]])
+                if op[1] == "fresh":
+                    sc.replace_lanelet_network(net)
+                else:                  # "swap": a LaneletNetwork handed to add_objects takes the place of the current one
+                    sc.add_objects(net)
+            self.net_version += 1
+        elif op[0] == "update":
+            # simulation stepping: the obstacle object is advanced in place; nobody tells the lanelets
+            ob = sc.obstacle_by_id(op[1]) or self.objs[op[1]]
+            if op[2] == "pred":
+                ob.update_prediction(None)
+            else:
+                from commonroad.scenario.state import InitialState
+                nxt = ob.state_at_time(ob.initial_state.time_step + 1) or ob.initial_state
+                nxt = InitialState(position=nxt.position, orientation=nxt.orientation, time_step=nxt.time_step, velocity=1.0,
+                                   acceleration=0.0, yaw_rate=0.0, slip_angle=0.0)
+                ob.update_initial_state(nxt, current_center_lanelet_ids=ob.initial_center_lanelet_ids,
+                                        current_shape_lanelet_ids=ob.initial_shape_lanelet_ids)
+        elif op[0] == "rmlanes":
+            sc.remove_lanelet([sc.lanelet_network.find_lanelet_by_id(l) or build_lanelet(self.lane_spec[l]) for l in op[1]])   # list form
             self.net_version += 1
         elif op[0] == "addlane":
-            sc.add_objects(build_lanelet(self.lane_spec[op[1]]))        # a fresh lanelet object: empty registries
+            if len(op) > 2 and op[2] == "net":
+                sc.lanelet_network.add_lanelet(build_lanelet(self.lane_spec[op[1]]))
+            else:
+                sc.add_objects(build_lanelet(self.lane_spec[op[1]]))        # a fresh lanelet object: empty registries
             self.net_version += 1
+        elif op[0] == "clearlane":
+            la = sc.lanelet_network.find_lanelet_by_id(op[1])
+            if op[2] == "same":            # the same set / dict handed back to the setters
+                la.static_obstacles_on_lanelet = la.static_obstacles_on_lanelet
+                la.dynamic_obstacles_on_lanelet = la.dynamic_obstacles_on_lanelet
+            else:
+                la.static_obstacles_on_lanelet = set()
+                la.dynamic_obstacles_on_lanelet = {}
+        elif op[0] == "set":
+            ob = sc.obstacle_by_id(op[1]) or self.objs[op[1]]
+            val = self.set_value(op[1], op[2])
+            ob.initial_center_lanelet_ids = ob.initial_center_lanelet_ids if op[2] == "same" else (None if val["ic"] is None else set(val["ic"]))
+            ob.initial_shape_lanelet_ids = ob.initial_shape_lanelet_ids if op[2] == "same" else (None if val["is"] is None else set(val["is"]))
+            p = getattr(ob, "prediction", None)
+            if self.spec[op[1]]["kind"] == "traj":
+                p.center_lanelet_assignment = p.center_lanelet_assignment if op[2] == "same" else \
+                    (None if val["pc"] is None else {int(t): set(v) for t, v in val["pc"].items()})
+                p.shape_lanelet_assignment = p.shape_lanelet_assignment if op[2] == "same" else \
+                    (None if val["ps"] is None else {int(t): set(v) for t, v in val["ps"].items()})
+        elif op[0] == "query":
+            self.query(op[1])
         else:
             raise ValueError(op)
+
+    def set_value(self, oid, how):
+        """the attribute values operation ["set", oid, how] writes: 'same' = what the object carries, 'none', 'lookup' = the
+        lookup answers on all lanelets of the case"""
+        o, ob = self.spec[oid], (self.sc.obstacle_by_id(oid) or self.objs[oid])
+        if how == "same":
+            p = getattr(ob, "prediction", None)
+            return {"ic": _sset(ob.initial_center_lanelet_ids), "is": _sset(ob.initial_shape_lanelet_ids),
+                    "pc": _sdict(getattr(p, "center_lanelet_assignment", None)), "ps": _sdict(getattr(p, "shape_lanelet_assignment", None))}
+        if how == "none" or o["kind"] == "set":
+            return {"ic": None, "is": None, "pc": None, "ps": None}
+        rows = self._look[oid]
+        val = {"ic": rows[0][1], "is": rows[0][2], "pc": None, "ps": None}
+        if o["kind"] == "traj":
+            val["pc"] = {str(t): c for t, c, _ in rows}
+            val["ps"] = {str(t): sh for t, _, sh in rows}
+        return val
+
+    def query(self, k):
+        """read-only calls (nothing the property observes may change): occupancies, lookups, obstacle queries, copies"""
+        import copy
+        import numpy as np
+        from commonroad.common.util import Interval
+        sc = self.sc
+        obs = sc.obstacles
+        if k == 0:
+            for ob in obs:
+                for t in range(ob.initial_state.time_step - 1, ob.initial_state.time_step + 3):
+                    ob.occupancy_at_time(t)
+                    ob.state_at_time(t)
+                getattr(getattr(ob, "prediction", None), "occupancy_set", None)
+        elif k == 1:
+            for la in sc.lanelet_network.lanelets:
+                for t in (0, 1, 2):
+                    la.get_obstacles([ob for ob in obs if ob.occupancy_at_time(t) is not None], t)
+                la.polygon, la.distance, la.inner_distance
+                for t in list(la.dynamic_obstacles_on_lanelet) + [-5, 10 ** 7]:
+                    if set(la.dynamic_obstacle_by_time_step(t)) != set(la.dynamic_obstacles_on_lanelet.get(t, ())):
+                        raise AssertionError(f"dynamic_obstacle_by_time_step({t}) differs from the registry of lanelet {la.lanelet_id}")
+            sc.lanelet_network.map_obstacles_to_lanelets([ob for ob in obs if ob.occupancy_at_time(0) is not None])
+        elif k == 2:
+            sc.lanelet_network.find_lanelet_by_position([np.array([1.0, 1.0]), np.array([500.0, 3.0])])
+            for ob in obs:
+                sc.lanelet_network.find_lanelet_by_shape(ob.occupancy_at_time(ob.initial_state.time_step).shape)
+                sc.obstacle_by_id(ob.obstacle_id)
+            sc.obstacle_states_at_time_step(0), sc.occupancies_at_time_step(1), sc.obstacles_by_position_intervals([Interval(-1e4, 1e4), Interval(-1e4, 1e4)])
+        else:
+            copy.deepcopy(sc)
+            hash(sc.scenario_id), len(sc.dynamic_obstacles), len(sc.static_obstacles), [l.lanelet_id for l in sc.lanelet_network.lanelets]
 
     def present(self):
         return {l.lanelet_id for l in self.sc.lanelet_network.lanelets}
@@ -689,10 +1247,79 @@ class World:
         return out
 
 
+def _as_form(xs, form, np_ints=False):
+    """the argument in one of the container / scalar types a caller may pass"""
+    if xs is None:
+        return None
+    import numpy as np
+    vals = [np.int64(x) for x in xs] if np_ints else list(xs)
+    if form == "set":
+        return set(vals)
+    if form == "frozenset":
+        return frozenset(vals)
+    if form == "tuple":
+        return tuple(vals)
+    if form == "array":
+        return np.array(list(xs), dtype=np.int64)
+    if form == "range" and len(xs) > 0 and list(xs) == list(range(xs[0], xs[0] + len(xs))):
+        return range(xs[0], xs[0] + len(xs))
+    return vals
+
+
+def model_ops(op, w):
+    """the operation as a list of model operations (list forms are loops over the single form; the variants of an entry point
+    are one model operation; 'set' with its concrete values — evaluated BEFORE the operation is applied)"""
+    if op[0] == "addmany":
+        return [["add", i] for i in op[1]]
+    if op[0] == "removemany":
+        return [["remove", i] for i in op[1]]
+    if op[0] == "rmlanes":
+        return [["rmlane", l] for l in op[1]]
+    if op[0] in ("rmlane", "addlane"):
+        return [[op[0], op[1]]]
+    if op[0] == "replacenet":
+        if op[1] == "copy":
+            return [["query"]]
+        return [["rmlane", l] for l in sorted(w.present())] + [["addlane", l] for l in op[2]]
+    if op[0] == "update":
+        return []
+    if op[0] == "clearlane":
+        return [["query"]] if op[2] == "same" else [["clearlane", op[1]]]
+    if op[0] == "set":
+        return [["set", op[1], w.set_value(op[1], op[2])]]
+    if op[0] == "query":
+        return [["query"]]
+    if op[0] == "assign":
+        return [["assign", op[1], op[2], op[3]]]
+    if op[0] == "reopen":
+        return [["reopen", "xml" if op[1].startswith("xml") else "pb"]]
+    return [op]
+
+
 def admissible(op, spec, inside, w=None):
     """is the operation one the property speaks about (valid arguments)"""
     if op[0] == "rmlane":
         return w is not None and op[1] in w.present()
+    if op[0] == "rmlanes":
+        return w is not None and all(l in w.present() for l in op[1]) and len(set(op[1])) == len(op[1])
+    if op[0] == "clearlane":
+        return w is not None and op[1] in w.present()
+    if op[0] in ("set", "query", "update"):
+        return True
+    if op[0] == "replacenet":
+        if op[1] == "copy":
+            return True
+        ok = w is not None and all(l in w.lane_spec for l in op[2]) and len(set(op[2])) == len(op[2])
+        return ok and (op[1] == "fresh" or not (set(op[2]) & w.present()))     # add_objects refuses ids that are in use
+    if op[0] == "addmany":
+        seen = set(inside)
+        for i in op[1]:
+            if not admissible(["add", i], spec, seen, w):
+                return False
+            seen.add(i)
+        return True
+    if op[0] == "removemany":
+        return all(i in inside for i in op[1]) and len(set(op[1])) == len(op[1])
     if op[0] == "addlane":
         return w is not None and op[1] in w.lane_spec and op[1] not in w.present() and op[1] not in inside
     if op[0] == "add":
@@ -858,9 +1485,12 @@ def judge(w, op, opname, inside, shape_mode, st, sub, pure=True, net_pending=Fal
 
 def opname_of(op):
     if op[0] == "reopen":
-        return "open-" + op[1]
-    if op[0] in ("rmlane", "addlane"):
-        return {"rmlane": "remove_lanelet", "addlane": "add_lanelet"}[op[0]]
+        return "open-" + ("xml" if op[1].startswith("xml") else "pb")
+    if op[0] in ("replacenet", "update"):
+        return {"replacenet": "replace_lanelet_network", "update": "update_initial_state"}[op[0]]
+    if op[0] in ("rmlane", "addlane", "rmlanes", "clearlane", "set", "query", "addmany", "removemany"):
+        return {"rmlane": "remove_lanelet", "rmlanes": "remove_lanelet", "addlane": "add_lanelet", "clearlane": "lanelet-registry-setter",
+                "set": "obstacle-attribute-setter", "query": "query", "addmany": "add_objects", "removemany": "remove_obstacle"}[op[0]]
     return {"add": "add_objects", "remove": "remove_obstacle", "assign": "assign_obstacles_to_lanelets"}[op[0]]
 
 
@@ -871,59 +1501,165 @@ def run_case(ctx, case, tags=True):
     late_lanes = False
     # parameters of the model
     look = call(w.lookups)
+    w._look = look[1] if look[0] == "ok" else None
     inside, assigned = set(), False
     center_pending, net_pending, pure = False, False, not any(o.get("preset") for o in case["obstacles"])
-    impl = []
+    stale = False           # an obstacle was advanced in place (update_initial_state / update_prediction): the case's description of
+                            # it is out of date for good; what remains checked: scenario content, removing never fails
+    edited = False          # an obstacle of the scenario had its assignment attributes edited in place (registries not told)
+    wild = False            # an operation raised: the model does not follow the state an exception leaves; the oracle goes on
+    net_level = set()       # lanelets put into the network through LaneletNetwork.add_lanelet (the scenario's id set does not know them)
+    net_removed = set()     # lanelets taken out through LaneletNetwork.remove_lanelet (the scenario's id set still holds their ids)
+    impl, groups = [], []
+    prev_st = None
     if look[0] == "ok":
         geo_compare(ctx, w, case, look[1], tags)
     for k, op in enumerate(ops):
         sub = dict(case, ops=ops[:k + 1])
-        ok = admissible(op, w.spec, inside, w)
+        ok = admissible(op, w.spec, inside, w) and not (op[0] == "set" and op[2] == "lookup" and w._look is None)
+        if op[0] in ("rmlane", "rmlanes") and not (len(op) > 2 and op[2] == "net"):
+            # a lanelet that entered at network level is unknown to Scenario._id_set: Scenario.remove_lanelet raises KeyError
+            ok = ok and not (set([op[1]] if op[0] == "rmlane" else op[1]) & net_level)
+        if op[0] == "addlane" and not (len(op) > 2 and op[2] == "net"):
+            ok = ok and op[1] not in net_removed        # Scenario.add_objects refuses an id its id set still holds
         opname = opname_of(op)
-        r = call(w.apply, op)
+        mops = call(model_ops, op, w) if not wild else ("ok", [])
+        r = call(w.apply, op) if mops[0] == "ok" else ("err", "other", "model_ops: " + mops[2])
+        if op[0] == "replacenet" and (net_level or (net_removed & set(op[2] if op[1] != "copy" else ()))):
+            ok = False
+        if not ok and ((op[0] in ("rmlane", "rmlanes", "addlane") and
+                        ((set(op[1] if op[0] == "rmlanes" else [op[1]]) & (net_level | net_removed)) or (len(op) > 2 and op[2] == "net")))
+                       or op[0] == "replacenet"):
+            # an inadmissible call on a lanelet whose presence the scenario and its network disagree about: which error (if any)
+            # comes out is no statement of the model; the history goes on under the oracle
+            if tags:
+                ctx.tag("op/error")
+            wild, pure, net_pending = True, False, True
+            inside = {o.obstacle_id for o in w.sc.static_obstacles} | {o.obstacle_id for o in w.sc.dynamic_obstacles}
+            prev_st = None
+            continue
+        np_ts = op[0] == "assign" and len(op) > 4 and op[2] and (op[4].get("np") or op[4].get("ts") == "array")
+        if r[0] == "err" and np_ts and r[1] == "assert":
+            # numpy integers as time steps are refused by the occupancy accessors' type check (documented List[int]): outside the
+            # quantifier; what the refused call leaves behind is judged by the oracle like after any other failed call
+            if tags:
+                ctx.tag("value/np-int-rejected")
+            wild, pure, net_pending = True, False, True
+            prev_st = None
+            continue
         if r[0] == "err":
-            impl.append({"err": r[1]})
-            if ok and op[0] == "remove" and not pure:
-                # "removing an obstacle that is in the scenario never fails", also when the network changed under the assignment
+            prev_st = None
+            if not wild:
+                impl.append({"err": r[1]})
+                groups.append(mops[1] if mops[0] == "ok" else [])
+            if ok and op[0] in ("remove", "removemany") and (not pure or wild or edited):
+                # "removing an obstacle that is in the scenario never fails" — whatever happened to the network, to the obstacle's
+                # attributes or in a failed call before
                 fail(ctx, "C07/remove_obstacle/raises-after-lanelet-removal",
-                     f"{op} raised {r[2]} (obstacle {op[1]} is in the scenario; lanelets present {sorted(w.present())}, lanelets its "
-                     f"recorded shape sets name {sorted(w.recorded_lanelets(op[1]))})", sub)
-            elif ok:
+                     f"{op} raised {r[2]} (obstacle(s) in the scenario; lanelets present {sorted(w.present())})", sub)
+            elif ok and not wild:
                 what = "/".join(sorted({top_kind(w.spec[i]["shape"]) for i in inside})) if op[0] != "remove" else w.spec[op[1]]["kind"]
                 fail(ctx, f"C07/{opname}/raises-{r[1]}/{what}", f"{op} raised {r[2]} (obstacles in the scenario: {sorted(inside)})", sub)
             elif tags:
                 ctx.tag("op/error")
-            break
-        if op[0] == "add" and ok:
-            if tags and assigned and w.objs[op[1]].initial_shape_lanelet_ids is not None:
-                ctx.tag("op/readd")
-            inside.add(op[1])
-        elif op[0] == "remove" and ok:
-            if assigned:
-                removed_after = True
-                if tags:
-                    ctx.tag("op/remove-after-assign")
-            if tags and (w.recorded_lanelets(op[1]) - w.present()):
-                ctx.tag("net/remove-obstacle-recording-absent-lanelet")
-            if tags and w.spec[op[1]].get("preset") and late_lanes:
-                ctx.tag("net/remove-preset-obstacle-after-late-lanelets")
-            inside.discard(op[1])
-        elif op[0] in ("rmlane", "addlane") and ok:
+            # the history goes on from whatever state the exception left (class 5): the oracle judges, the model stops
+            wild, pure = True, False
+            net_pending = True
+            inside = {o.obstacle_id for o in w.sc.static_obstacles} | {o.obstacle_id for o in w.sc.dynamic_obstacles}
+            continue
+        if wild and tags:
+            ctx.tag("op/after-error")
+        if op[0] in ("add", "addmany") and ok:
+            for i in ([op[1]] if op[0] == "add" else op[1]):
+                if tags and assigned and w.objs[i].initial_shape_lanelet_ids is not None:
+                    ctx.tag("op/readd")
+                inside.add(i)
+            if tags and op[0] == "addmany":
+                ctx.tag("form/list-add")
+        elif op[0] in ("remove", "removemany"):
+            # (an obstacle that is not in the scenario is skipped with a warning; the rest of a list is still removed)
+            for i in [i for i in ([op[1]] if op[0] == "remove" else op[1]) if i in inside]:
+                if assigned:
+                    removed_after = True
+                    if tags:
+                        ctx.tag("op/remove-after-assign")
+                if tags and (w.recorded_lanelets(i) - w.present()):
+                    ctx.tag("net/remove-obstacle-recording-absent-lanelet")
+                if tags and w.spec[i].get("preset") and late_lanes:
+                    ctx.tag("net/remove-preset-obstacle-after-late-lanelets")
+                inside.discard(i)
+            if tags and op[0] == "removemany":
+                ctx.tag("form/list-remove")
+        elif op[0] in ("rmlane", "addlane", "rmlanes") and ok:
             pure = False
             if op[0] == "addlane":
                 net_pending = True
                 if inside:
                     late_lanes = True
+                if len(op) > 2 and op[2] == "net":
+                    if op[1] in net_removed:
+                        net_removed.discard(op[1])      # back in the network, and the scenario's id set never forgot it
+                    else:
+                        net_level.add(op[1])
+            else:
+                gone = set([op[1]] if op[0] == "rmlane" else op[1])
+                if len(op) > 2 and op[2] == "net":
+                    net_removed |= gone - net_level
+                net_level -= gone
             if tags:
-                ctx.tag("net/" + op[0])
+                ctx.tag("net/" + ("rmlane" if op[0] != "addlane" else "addlane"))
+                if (len(op) > 2 and op[2] == "net") or op[0] == "rmlanes":
+                    ctx.tag("net/network-level-or-list")
+                if len(op) > 2 and op[2] == "noref":
+                    ctx.tag("form/remove-lanelet-noref")
+        elif op[0] == "replacenet":
+            pure = False
+            if op[1] != "copy":
+                net_pending = True
+                if inside:
+                    late_lanes = True
+            if tags:
+                ctx.tag("net/replace-" + op[1])
+        elif op[0] == "update":
+            stale = edited = wild = True
+            pure = False
+            if tags:
+                ctx.tag("op/update-inside" if op[1] in inside else "op/update-outside")
+        elif op[0] == "clearlane" and ok:
+            if op[2] != "same":
+                net_pending = True          # like a fresh lanelet object: whoever records the lanelet is not listed any more
+            if tags:
+                ctx.tag("op/clearlane")
+        elif op[0] == "set":
+            if op[2] != "same":
+                pure = False
+                if op[1] in inside:
+                    edited = True
+            if tags:
+                ctx.tag("op/set-same" if op[2] == "same" else ("op/set-inside" if op[1] in inside else "op/set-outside"))
+        elif op[0] == "query":
+            if tags:
+                ctx.tag("op/query")
         elif op[0] == "assign":
+            form = op[4] if len(op) > 4 and op[4] else {}
+            if tags:
+                if form.get("ids", "set") != "set" or form.get("ts", "list") != "list":
+                    ctx.tag("form/arg-types")
+                if form.get("np"):
+                    ctx.tag("value/np-int")
+                if op[1] is not None and len(op[1]) == 0:
+                    ctx.tag("value/empty-ids")
+                if op[2] is not None and len(op[2]) == 0:
+                    ctx.tag("value/empty-ts")
+                if op[2] is not None and len(set(op[2])) < len(op[2]):
+                    ctx.tag("value/repeated-ts")
             if op[3]:
                 center_pending = True
                 if tags:
                     ctx.tag("op/center-only")
             else:
                 assigned = True
-                if op[1] is None and op[2] is None and not center_pending:
+                if op[1] is None and op[2] is None and not center_pending and not wild:
                     net_pending = False      # a full assignment re-establishes the exact inverse (C07c_reassign_exact)
                 if tags:
                     ctx.tag("entry/assign")
@@ -932,8 +1668,17 @@ def run_case(ctx, case, tags=True):
         elif op[0] == "reopen":
             assigned = True
             center_pending = net_pending = False        # the registries are rebuilt from the shape sets (C07_reopen_restores)
+            edited = stale
+            net_level, net_removed = set(), set()
             if tags:
-                ctx.tag("entry/reopen-" + op[1])
+                ctx.tag("entry/reopen-" + ("xml" if op[1].startswith("xml") else "pb"))
+                flags = op[1][3 if op[1].startswith("xml") else 2:]
+                if "2" in flags:
+                    ctx.tag("entry/reader-reuse")
+                if "r" in flags:
+                    ctx.tag("entry/reader-class")
+                if set(flags) & set("nsp"):
+                    ctx.tag("entry/io-variants")
             # the geometry must have survived the file exactly, else the model's parameters are stale: stop the history here
             look2 = call(w.lookups)
             if look[0] == "ok" and look2[0] == "ok" and look2[1] != look[1]:
@@ -942,8 +1687,18 @@ def run_case(ctx, case, tags=True):
                 ops = ops[:k]
                 break
         st = observe(w.sc, w.objs, w.lane_spec)
-        impl.append({"ok": st})
-        judge(w, op, opname, inside, not (center_pending or net_pending), st, sub, pure, net_pending)
+        if (op[0] == "query" or (op[0] in ("clearlane", "set") and op[2] == "same") or (op[0] == "replacenet" and op[1] == "copy")) \
+                and prev_st is not None and st != prev_st:
+            diff = [k2 for k2 in st if st[k2] != prev_st[k2]]
+            fail(ctx, f"C07/{opname}/state-changed-by-noop", f"{op} (read-only calls / the same object handed back / a deep copy) changed {diff}", sub)
+        prev_st = st
+        if not wild:
+            impl.append({"ok": st})
+            groups.append(mops[1])
+        if not edited:
+            judge(w, op, opname, inside, not (center_pending or net_pending), st, sub, pure, net_pending)
+        elif sorted(inside) != sorted(st["statics"] + st["dynamics"]):
+            fail(ctx, f"C07/{opname}/scenario-content", f"after {op}: scenario holds {st['statics']} + {st['dynamics']}, expected {sorted(inside)}", sub)
     beyond = False
     if tags:
         beyond = tag_case(ctx, w, case)
@@ -961,12 +1716,24 @@ def run_case(ctx, case, tags=True):
         return {"ic": pre.get("ic"), "is": pre.get("is"),
                 "pc": None if pre.get("pc") is None else {str(t): v for t, v in pre["pc"].items()},
                 "ps": None if pre.get("ps") is None else {str(t): v for t, v in pre["ps"].items()}}
+    flat = [m for g in groups for m in g]
     args = {"lanelets": [l["id"] for l in case["lanelets"]], "present0": present0(case),
             "obs": [{"id": o["id"], "kind": o["kind"], "t0": o["t0"], "len": len(o.get("traj", [])) if o["kind"] == "traj" else 0,
                      "look": look[1][o["id"]], "preset": _preset(o)} for o in case["obstacles"]],
-            "ops": ops, "tmin": min(ts), "tspan": max(ts) - min(ts)}
-    model = ctx.driver.ask("C07", "nrun", args)
-    ctx.compare(dict(case, ops=ops), impl, model, "Scenario add/assign/remove/open/add_lanelet/remove_lanelet history vs CR.Assign.nrun")
+            "ops": flat, "tmin": min(ts), "tspan": max(ts) - min(ts)}
+    res = ctx.driver.ask("C07", "nrun", args)
+    # one implementation call = a group of model operations: the state after the group, or the error inside it
+    model, pos = [], 0
+    for g in groups:
+        part = res[pos:pos + len(g)]
+        pos += len(g)
+        if any("err" in x for x in part):
+            model.append(next(x for x in part if "err" in x))
+            break
+        if len(part) < len(g):
+            break
+        model.append(part[-1] if part else (model[-1] if model else {"ok": None}))
+    ctx.compare(dict(case, ops=ops), impl, model, "Scenario add/assign/remove/open/add_lanelet/remove_lanelet/setter history vs CR.Assign.nrun")
 
 
 def _rspec(spec):
@@ -1043,6 +1810,10 @@ def tag_case(ctx, w, case):
     beyond = False
     for o in case["obstacles"]:
         ctx.tag("kind/" + o["kind"])
+        if o["id"] == 0:
+            ctx.tag("value/id0")
+        if o["t0"] >= 10 ** 6:
+            ctx.tag("value/big-t0")
         ctx.tag("shape/" + top_kind(o["shape"]))
         if o["shape"]["k"] == "rect" and (o["o"] != 0 or any(s["o"] != 0 for s in o.get("traj", []))):
             ctx.tag("shape/rect-rotated")
@@ -1064,9 +1835,12 @@ def tag_case(ctx, w, case):
 
 
 def run(ctx):
+    check_dimensions()
     for p in sorted(glob.glob(os.path.join(CORPUS_DIR, "C07", "*.json"))):
         run_case(ctx, json.load(open(p)))
-    for _ in range(ctx.n(400)):
+    # a history costs ~0.13 s (exact rational brute-force oracle + composed-geometry comparison per obstacle and time step): the
+    # thorough tier's 8 workers x 2400 histories took 8 minutes for little gain; now 8 x 1500 histories
+    for _ in range(min(ctx.n(400), 1500)):
         run_case(ctx, gen_case(ctx))
 
 
